@@ -3,8 +3,20 @@ import Mathlib.Tactic.Ring
 import Mathlib.Tactic.Linarith
 import Mathlib.Algebra.Order.Field.Rat
 import ChemProofs.Model.Poisson
+import ChemProofs.Model.Convolution
+import ChemProofs.Model.Brain
 /-
 C10 — charge only rescales m/z; charge 0 means neutral masses.
+
+Proved for all three generators, with no side conditions (every `z : Int` of either sign, every carrier,
+threshold, composition, cache): the result at charge `z` is the result at charge 0 with each peak's `mz`
+replaced by `chargedMz mz z c` (`rescale z c`), same peaks, same order, same intensities, and the same
+failure behaviour (`none` / `err` / `panic` at one charge iff at every charge):
+  Poisson      `poisson_charge`
+  convolution  `conv_charge_peaks`, `conv_charge`, `conv_charge_mz`, `conv_charge_length`
+  BRAIN        `raw_charge`, `cutLoop_map`, `sortByMz_map_strictMono`, `brain_charge`,
+               `brainVariants_charge`, `generatorCall_charge` (+ `_int` / `_mz` projections)
+Nothing is left as `_partial`.
 -/
 namespace Chem
 
@@ -62,5 +74,299 @@ theorem poisson_charge (mass : Rat) (n : Nat) (z : Int) (lf ns pr : Rat) :
 example : mzOf 1000 2 (1007276 / 1000000) = some ((1000 + 2 * (1007276 / 1000000)) / 2) := by
   simp [mzOf]
 example : (poisson 1200 4 0 1800 1 1).map (·.mz) = [1200, 1201, 1202, 1203] := by decide +kernel
+
+
+/-! ## Charge only rescales m/z: the fine-structure (convolution) generator -/
+
+/-- replace the m/z of a peak by `f mz`, keep the intensity -/
+def mapMz (f : Rat → Rat) (p : Peak) : Peak := { p with mz := f p.mz }
+
+/-- the rescaling applied by a generator called with charge `z` and carrier mass `c` -/
+def rescale (z : Int) (c : Rat) : Peak → Peak := mapMz (fun m => chargedMz m z c)
+
+theorem rescale_eq (z : Int) (c : Rat) : rescale z c = fun p => { p with mz := chargedMz p.mz z c } := rfl
+
+@[simp] theorem mapMz_int (f : Rat → Rat) (p : Peak) : (mapMz f p).int = p.int := rfl
+@[simp] theorem mapMz_mz (f : Rat → Rat) (p : Peak) : (mapMz f p).mz = f p.mz := rfl
+@[simp] theorem rescale_int (z : Int) (c : Rat) (p : Peak) : (rescale z c p).int = p.int := rfl
+@[simp] theorem rescale_mz (z : Int) (c : Rat) (p : Peak) : (rescale z c p).mz = chargedMz p.mz z c := rfl
+
+/-- at charge 0 the rescaling is the identity -/
+theorem rescale_zero (c : Rat) : rescale 0 c = id := by
+  funext p; cases p; simp [rescale, mapMz, chargedMz_zero]
+
+theorem total_map_int (g : Peak → Peak) (hg : ∀ p, (g p).int = p.int) (l : List Peak) :
+    total (l.map g) = total l := by
+  simp [total, intensities, List.map_map, Function.comp_def, hg]
+
+/-- `normalize` looks at intensities only and keeps every `mz` -/
+theorem normalize_mapMz (f : Rat → Rat) (P Q : Pattern) (h : Q.peaks = P.peaks.map (mapMz f)) :
+    Q.normalize.map (·.peaks) = P.normalize.map (fun q => q.peaks.map (mapMz f)) := by
+  have ht : total Q.peaks = total P.peaks := by rw [h]; exact total_map_int (mapMz f) (fun _ => rfl) _
+  have he : Q.peaks.isEmpty = P.peaks.isEmpty := by rw [h]; simp
+  unfold Pattern.normalize
+  rw [he, ht]
+  by_cases h1 : P.peaks.isEmpty = true
+  · simp only [h1, if_true, Option.map_some]; rw [h]
+  · simp only [h1]
+    by_cases h2 : total P.peaks = 0
+    · simp [h2]
+    · simp only [h2, if_false, Bool.false_eq_true, Option.map_some, Pattern.scaleBy]
+      rw [h]; simp [List.map_map, Function.comp_def, mapMz]
+
+/-- `ignore_below` looks at intensities only and keeps every `mz` -/
+theorem ignoreBelow_mapMz (f : Rat → Rat) (t : Rat) (P Q : Pattern) (h : Q.peaks = P.peaks.map (mapMz f)) :
+    (Q.ignoreBelow t).map (·.peaks) = (P.ignoreBelow t).map (fun q => q.peaks.map (mapMz f)) := by
+  unfold Pattern.ignoreBelow
+  apply normalize_mapMz
+  simp only [h, List.filter_map]
+  congr 1
+
+/-- the part of `isotopic_convolution` after the charge step -/
+theorem convTail_mapMz (f : Rat → Rat) (t : Rat) (P Q : Pattern) (h : Q.peaks = P.peaks.map (mapMz f)) :
+    (match Q.normalize with
+      | none => (none : Option (List Peak))
+      | some q => (Pattern.ignoreBelow q t).map Pattern.peaks) =
+    (match P.normalize with
+      | none => (none : Option (List Peak))
+      | some q => (Pattern.ignoreBelow q t).map Pattern.peaks).map (List.map (mapMz f)) := by
+  have hn := normalize_mapMz f P Q h
+  cases hP : P.normalize with
+  | none =>
+    rw [hP] at hn
+    cases hQ : Q.normalize with
+    | none => rfl
+    | some q => rw [hQ] at hn; simp at hn
+  | some p =>
+    rw [hP] at hn
+    cases hQ : Q.normalize with
+    | none => rw [hQ] at hn; simp at hn
+    | some q =>
+      rw [hQ] at hn
+      simp only [Option.map_some, Option.some.injEq] at hn
+      simp only [Option.map_map]
+      exact ignoreBelow_mapMz f t p q hn
+
+/-- **convolution generator**: the result at charge `z` is the result at charge 0 (neutral masses)
+    with every `mz` converted for the charge and nothing else changed; `none` (a zero total) at one
+    charge iff at every charge -/
+theorem conv_charge_peaks (entries : List (Dist × Int)) (z : Int) (c t : Rat) :
+    isotopicConvolution entries z c t = (isotopicConvolution entries 0 c t).map (List.map (rescale z c)) := by
+  unfold isotopicConvolution
+  refine convTail_mapMz (fun m => chargedMz m z c) t _ _ ?_
+  simp [List.map_map, Function.comp_def, mapMz, chargedMz_zero]
+
+/-- same intensities at every charge -/
+theorem conv_charge (entries : List (Dist × Int)) (z : Int) (c t : Rat) :
+    (isotopicConvolution entries z c t).map (·.map (·.int)) =
+      (isotopicConvolution entries 0 c t).map (·.map (·.int)) := by
+  rw [conv_charge_peaks entries z c t]
+  simp [Option.map_map, Function.comp_def, List.map_map]
+
+/-- every m/z is the neutral mass of the same peak converted for the charge -/
+theorem conv_charge_mz (entries : List (Dist × Int)) (z : Int) (c t : Rat) :
+    (isotopicConvolution entries z c t).map (·.map (·.mz)) =
+      (isotopicConvolution entries 0 c t).map (·.map (fun p => chargedMz p.mz z c)) := by
+  rw [conv_charge_peaks entries z c t]
+  simp [Option.map_map, Function.comp_def, List.map_map]
+
+/-- same number of peaks at every charge -/
+theorem conv_charge_length (entries : List (Dist × Int)) (z : Int) (c t : Rat) :
+    (isotopicConvolution entries z c t).map (·.length) = (isotopicConvolution entries 0 c t).map (·.length) := by
+  rw [conv_charge_peaks entries z c t]
+  simp [Option.map_map, Function.comp_def]
+
+/-! ## Charge only rescales m/z: the coarse (BRAIN) generator -/
+
+/-- map over the `ok` value of a result; `err` and `panic` are kept -/
+def Res.mapOk {α β} (f : α → β) (r : Res α) : Res β := r.bind fun a => .ok (f a)
+
+@[simp] theorem Res.mapOk_ok {α β} (f : α → β) (a : α) : (Res.ok a).mapOk f = .ok (f a) := rfl
+@[simp] theorem Res.mapOk_err {α β} (f : α → β) : (Res.err : Res α).mapOk f = .err := rfl
+@[simp] theorem Res.mapOk_panic {α β} (f : α → β) : (Res.panic : Res α).mapOk f = .panic := rfl
+
+theorem Res.mapOk_id {α} (r : Res α) : r.mapOk id = r := by cases r <;> rfl
+
+theorem Res.mapOk_bind {α β γ} (r : Res α) (k : α → Res β) (f : β → γ) :
+    (r.bind k).mapOk f = r.bind fun a => (k a).mapOk f := by cases r <;> rfl
+
+/-- the variants before the cut and the sort: same intensities, `mz` converted for the charge -/
+theorem raw_charge (K : BrainConsts) (consts : IsoConstants) (comp : BComp) (order : Nat) (z : Int) (c : Rat) :
+    rawVariants K consts comp order z c =
+      (rawVariants K consts comp order 0 c).mapOk (List.map (rescale z c)) := by
+  unfold rawVariants
+  simp only [Res.mapOk_bind]
+  congr 1; funext prob
+  congr 1; funext cm
+  simp [List.map_map, Function.comp_def, rescale, mapMz, chargedMz_zero]
+
+/-- the cut loop looks at intensities only -/
+theorem cutLoop_map (g : Peak → Peak) (hg : ∀ p, (g p).int = p.int) (cut : Rat) (l : List Peak) (b : Bool) :
+    cutLoop cut (l.map g) b = (cutLoop cut l b).map g := by
+  induction l generalizing b with
+  | nil => rfl
+  | cons p rest ih =>
+    simp only [List.map_cons, cutLoop, hg]
+    split
+    · split
+      · exact ih _
+      · rw [List.map_cons, ih]
+    · rw [List.map_cons, ih]
+
+/-- a strictly increasing map reflects `<` on ℚ -/
+theorem strictMono_lt_iff (f : Rat → Rat) (hf : ∀ a b, a < b → f a < f b) (a b : Rat) :
+    f a < f b ↔ a < b := by
+  constructor
+  · intro h
+    rcases lt_trichotomy a b with h1 | h1 | h1
+    · exact h1
+    · subst h1; exact absurd h (lt_irrefl _)
+    · exact absurd h (lt_asymm (hf _ _ h1))
+  · exact hf a b
+
+theorem insertByMz_map_strictMono (f : Rat → Rat) (hf : ∀ a b, a < b → f a < f b) (x : Peak) (l : List Peak) :
+    insertByMz (mapMz f x) (l.map (mapMz f)) = (insertByMz x l).map (mapMz f) := by
+  induction l with
+  | nil => rfl
+  | cons y ys ih =>
+    simp only [List.map_cons, insertByMz, mapMz_mz, strictMono_lt_iff f hf]
+    split
+    · rfl
+    · rw [List.map_cons, ih]
+
+theorem sortFold_map_strictMono (f : Rat → Rat) (hf : ∀ a b, a < b → f a < f b) (l acc : List Peak) :
+    (l.map (mapMz f)).foldl (fun acc x => insertByMz x acc) (acc.map (mapMz f)) =
+      (l.foldl (fun acc x => insertByMz x acc) acc).map (mapMz f) := by
+  induction l generalizing acc with
+  | nil => rfl
+  | cons x xs ih =>
+    simp only [List.map_cons, List.foldl_cons]
+    rw [insertByMz_map_strictMono f hf, ih]
+
+/-- sorting by m/z commutes with a strictly increasing change of the m/z values: both `<` tests of
+    every insertion agree -/
+theorem sortByMz_map_strictMono (f : Rat → Rat) (hf : ∀ a b, a < b → f a < f b) (l : List Peak) :
+    sortByMz (l.map (mapMz f)) = (sortByMz l).map (mapMz f) := by
+  unfold sortByMz
+  exact sortFold_map_strictMono f hf l []
+
+theorem sortByMz_rescale (z : Int) (c : Rat) (l : List Peak) :
+    sortByMz (l.map (rescale z c)) = (sortByMz l).map (rescale z c) :=
+  sortByMz_map_strictMono _ (fun a b h => chargedMz_strictMono c z a b h) l
+
+/-- **BRAIN, populated constants**: the variants at charge `z` are the variants at charge 0 with
+    every `mz` converted for the charge (same peaks kept by the cut, same order, same intensities);
+    a panic at one charge iff at every charge -/
+theorem brain_charge (K : BrainConsts) (consts : IsoConstants) (comp : BComp) (order : Nat) (z : Int) (c : Rat) :
+    variantsWith K consts comp order z c =
+      (variantsWith K consts comp order 0 c).mapOk (List.map (rescale z c)) := by
+  unfold variantsWith
+  rw [raw_charge K consts comp order z c]
+  cases rawVariants K consts comp order 0 c with
+  | ok peaks =>
+    simp only [Res.mapOk_ok, Res.bind]
+    rw [cutLoop_map _ (rescale_int z c), sortByMz_rescale]
+  | err => rfl
+  | panic => rfl
+
+/-- **BRAIN, stateless entry point** -/
+theorem brainVariants_charge (K : BrainConsts) (comp : BComp) (req : PeakReq) (z : Int) (c : Rat) :
+    brainVariants K comp req z c = (brainVariants K comp req 0 c).mapOk (List.map (rescale z c)) := by
+  unfold brainVariants
+  simp only [Res.mapOk_bind]
+  congr 1; funext consts
+  exact brain_charge K consts comp _ z c
+
+/-- **BRAIN, reusable generator**: the peaks are rescaled, the new cache does not depend on the charge -/
+theorem generatorCall_charge (K : BrainConsts) (cache : Cache) (comp : BComp) (req : PeakReq) (z : Int) (c : Rat) :
+    generatorCall K cache comp req z c =
+      (generatorCall K cache comp req 0 c).mapOk (fun r => (r.1.map (rescale z c), r.2)) := by
+  unfold generatorCall
+  simp only [Res.mapOk_bind]
+  congr 1; funext x
+  obtain ⟨consts, cache'⟩ := x
+  simp only
+  rw [brain_charge K consts comp _ z c]
+  cases variantsWith K consts comp (resolveOrder K comp req).toNat 0 c <;> rfl
+
+/-- consequences in the shape of `poisson_charge`: intensities and m/z of the BRAIN peaks -/
+theorem brainVariants_charge_int (K : BrainConsts) (comp : BComp) (req : PeakReq) (z : Int) (c : Rat) :
+    (brainVariants K comp req z c).mapOk (List.map (·.int)) =
+      (brainVariants K comp req 0 c).mapOk (List.map (·.int)) := by
+  rw [brainVariants_charge K comp req z c]
+  cases brainVariants K comp req 0 c <;> simp [List.map_map, Function.comp_def]
+
+theorem brainVariants_charge_mz (K : BrainConsts) (comp : BComp) (req : PeakReq) (z : Int) (c : Rat) :
+    (brainVariants K comp req z c).mapOk (List.map (·.mz)) =
+      (brainVariants K comp req 0 c).mapOk (List.map (fun p => chargedMz p.mz z c)) := by
+  rw [brainVariants_charge K comp req z c]
+  cases brainVariants K comp req 0 c <;> simp [List.map_map, Function.comp_def]
+
+/-- at charge 0 the statements are the identity -/
+theorem brain_charge_zero (K : BrainConsts) (comp : BComp) (req : PeakReq) (c : Rat) :
+    (brainVariants K comp req 0 c).mapOk (List.map (rescale 0 c)) = brainVariants K comp req 0 c := by
+  rw [rescale_zero]; simp [Res.mapOk_id]
+
+/-! ## non-vacuity for the two generators -/
+
+namespace C10Demo
+
+/-- a toy element: isotopes of mass 1 (abundance 3/4) and mass 2 (abundance 1/4), in units of 1/4 -/
+def X : Elem :=
+  { tkey := [88], sym := [88],
+    isos := [{ key := 1, mass := 4, abund := 3, neutrons := 1, shift := 0 },
+             { key := 2, mass := 8, abund := 1, neutrons := 2, shift := 1 }],
+    mostIso := 1, mostMass := 4, minShift := 0, maxShift := 1, elemNum := 1 }
+
+def K : BrainConsts :=
+  { one := 4, lambdaFactor := 1800, maxIter := 255, guessCap := 300, guessFraction := 9999/10000,
+    cut := 1/10000000000 }
+
+def D : Dist := [(1, 3/4), (2, 1/4)]
+
+-- BRAIN on X₂: neutral masses at charge 0, `(m + z)/|z|` at charges 2 and -2 (carrier mass 1),
+-- the same three intensities every time
+example : brainVariants K [(X, 2)] (.fixed 3) 0 1 = .ok [⟨2, 9/16⟩, ⟨3, 3/8⟩, ⟨4, 1/16⟩] := by decide +kernel
+example : brainVariants K [(X, 2)] (.fixed 3) 2 1 = .ok [⟨2, 9/16⟩, ⟨5/2, 3/8⟩, ⟨3, 1/16⟩] := by decide +kernel
+example : brainVariants K [(X, 2)] (.fixed 3) (-2) 1 = .ok [⟨0, 9/16⟩, ⟨1/2, 3/8⟩, ⟨1, 1/16⟩] := by
+  decide +kernel
+example : (generatorCall K [] [(X, 2)] (.fixed 3) (-2) 1).mapOk (·.1) =
+    .ok [⟨0, 9/16⟩, ⟨1/2, 3/8⟩, ⟨1, 1/16⟩] := by decide +kernel
+-- the right-hand side of `brainVariants_charge` evaluates to the same list
+example : (brainVariants K [(X, 2)] (.fixed 3) 0 1).mapOk (List.map (rescale (-2) 1)) =
+    .ok [⟨0, 9/16⟩, ⟨1/2, 3/8⟩, ⟨1, 1/16⟩] := by decide +kernel
+
+-- convolution on D² with threshold 1/10 (the (4, 1/16) arrangement is pruned); `mergeSort` does not
+-- reduce in the kernel, so the sort is evaluated by `norm_num` and the rest by `decide`
+theorem demo_conv : convolveEntries (1/10) [(D, 2)] 0 [] = [(2, 9/16), (3, 3/16), (3, 3/16)] := by
+  decide +kernel
+theorem demo_sort : sortByMass [(2, 9/16), (3, 3/16), (3, 3/16)] = [(2, 9/16), (3, 3/16), (3, 3/16)] := by
+  norm_num [sortByMass, List.mergeSort, List.MergeSort.Internal.splitInTwo, List.merge]
+
+theorem demo_isoconv (z : Int) (c : Rat) : isotopicConvolution [(D, 2)] z c (1/10) =
+    some [⟨chargedMz 2 z c, 3/5⟩, ⟨chargedMz 3 z c, 1/5⟩, ⟨chargedMz 3 z c, 1/5⟩] := by
+  rw [conv_charge_peaks]
+  unfold isotopicConvolution
+  rw [demo_conv, demo_sort]
+  have : ∀ x, x = some ([⟨2, 3/5⟩, ⟨3, 1/5⟩, ⟨3, 1/5⟩] : List Peak) →
+      Option.map (List.map (rescale z c)) x =
+        some [⟨chargedMz 2 z c, 3/5⟩, ⟨chargedMz 3 z c, 1/5⟩, ⟨chargedMz 3 z c, 1/5⟩] := by
+    intro x hx; subst hx; rfl
+  apply this
+  simp only [chargedMz_zero]
+  decide +kernel
+
+example : isotopicConvolution [(D, 2)] 0 1 (1/10) = some [⟨2, 3/5⟩, ⟨3, 1/5⟩, ⟨3, 1/5⟩] := by
+  rw [demo_isoconv]; decide +kernel
+example : isotopicConvolution [(D, 2)] 2 1 (1/10) = some [⟨2, 3/5⟩, ⟨5/2, 1/5⟩, ⟨5/2, 1/5⟩] := by
+  rw [demo_isoconv]; decide +kernel
+example : isotopicConvolution [(D, 2)] (-2) 1 (1/10) = some [⟨0, 3/5⟩, ⟨1/2, 1/5⟩, ⟨1/2, 1/5⟩] := by
+  rw [demo_isoconv]; decide +kernel
+
+-- the sort really needs strict monotonicity: a decreasing relabelling does not commute
+example : sortByMz ([⟨1, 0⟩, ⟨2, 0⟩].map (mapMz (fun m => -m))) ≠
+    (sortByMz [⟨1, 0⟩, ⟨2, 0⟩]).map (mapMz (fun m => -m)) := by decide +kernel
+
+end C10Demo
 
 end Chem
